@@ -15,6 +15,7 @@
   `BitVec 64` for `usize`, `BitVec 128` for the `u128` amount of `rotate_right`), hypotheses in BitVec order.
 -/
 import CC.Null.Lemmas
+import CC.Null.Src
 namespace CC.Thm.C19
 open CC CC.Null CC.Null.Lemmas
 
@@ -419,6 +420,135 @@ theorem u32x4x4_splat_rotate_right_release (v : U32x4x4) (i : BitVec 32) :
     v.splat_rotate_right .release i = .ok (Meaning.U32x4x4.splat_rotate_right v (i.toNat % 32)) := by
   unfold U32x4x4.splat_rotate_right
   simp only [u32x4_splat_rotate_right_release, ok_bind]; rfl
+
+/-! ## source tie -/
+
+/-- **Source tie.**  Every public and private method and every trait-impl method of every type of
+    /repo/utils-simd/ppv-null/src/lib.rs — the bodies of `define_vec1!`, `define_vec2!`, `define_vec4!`, `zipmap_impl!` with the
+    arguments of each instantiation substituted (`u128x1`, `u128x2`, `u32x4`, `u64x4`) and the hand-written `u32x4x4` —, as
+    TRANSLATED from the Rust source on every run (tools/inventory_null.py → `CC.Gen.NullSrc`), equals the model definition
+    the theorems above are about: as FUNCTIONS, hence for both profiles where the definition takes one (`debug_assert*`
+    is a guard in profile debug only, `xs[i]` a guard on the length in every profile, `<<` `>>` `-` overflow-checked in debug
+    and masked / wrapping in release, closures handed to `map` / `zipmap` inlined).  Nothing was outside the translator's
+    language (`null_errors = []`), the list of items (structs, derives, methods with visibility, trait impls) and the struct
+    shapes are the modelled ones.  Individual facts: `CC.Src.src_null_*` (lean/CC/Null/Src.lean). -/
+theorem source_null_match :
+    (CC.Gen.NullSrc.null_errors = []) ∧
+    (CC.Gen.NullSrc.null_items = CC.Src.null_items_expected) ∧
+    (CC.Gen.NullSrc.null_structs = CC.Src.null_structs_expected) ∧
+    (CC.Null.U128x1.add_assign = CC.Gen.NullSrc.U128x1.add_assign) ∧
+    (CC.Null.U128x1.andnot = CC.Gen.NullSrc.U128x1.andnot) ∧
+    (CC.Null.U128x1.bitand = CC.Gen.NullSrc.U128x1.bitand) ∧
+    (CC.Null.U128x1.bitxor = CC.Gen.NullSrc.U128x1.bitxor) ∧
+    (CC.Null.U128x1.bitxor_assign = CC.Gen.NullSrc.U128x1.bitxor_assign) ∧
+    (CC.Null.U128x1.clone = CC.Gen.NullSrc.U128x1.clone) ∧
+    (CC.Null.U128x1.extract = CC.Gen.NullSrc.U128x1.extract) ∧
+    (CC.Null.U128x1.into_inner = CC.Gen.NullSrc.U128x1.into_inner) ∧
+    (CC.Null.U128x1.load = CC.Gen.NullSrc.U128x1.load) ∧
+    (CC.Null.U128x1.new = CC.Gen.NullSrc.U128x1.new) ∧
+    (CC.Null.U128x1.not = CC.Gen.NullSrc.U128x1.not) ∧
+    (CC.Null.U128x1.rotate_right = CC.Gen.NullSrc.U128x1.rotate_right) ∧
+    (CC.Null.U128x1.swap = CC.Gen.NullSrc.U128x1.swap) ∧
+    (CC.Null.U128x1.swap1 = CC.Gen.NullSrc.U128x1.swap1) ∧
+    (CC.Null.U128x1.swap16 = CC.Gen.NullSrc.U128x1.swap16) ∧
+    (CC.Null.U128x1.swap2 = CC.Gen.NullSrc.U128x1.swap2) ∧
+    (CC.Null.U128x1.swap32 = CC.Gen.NullSrc.U128x1.swap32) ∧
+    (CC.Null.U128x1.swap4 = CC.Gen.NullSrc.U128x1.swap4) ∧
+    (CC.Null.U128x1.swap64 = CC.Gen.NullSrc.U128x1.swap64) ∧
+    (CC.Null.U128x1.swap8 = CC.Gen.NullSrc.U128x1.swap8) ∧
+    (CC.Null.U128x1.xor_store = CC.Gen.NullSrc.U128x1.xor_store) ∧
+    (CC.Null.U128x2.add_assign = CC.Gen.NullSrc.U128x2.add_assign) ∧
+    (CC.Null.U128x2.andnot = CC.Gen.NullSrc.U128x2.andnot) ∧
+    (CC.Null.U128x2.bitand = CC.Gen.NullSrc.U128x2.bitand) ∧
+    (CC.Null.U128x2.bitor = CC.Gen.NullSrc.U128x2.bitor) ∧
+    (CC.Null.U128x2.bitxor_assign = CC.Gen.NullSrc.U128x2.bitxor_assign) ∧
+    (CC.Null.U128x2.clone = CC.Gen.NullSrc.U128x2.clone) ∧
+    (CC.Null.U128x2.extract = CC.Gen.NullSrc.U128x2.extract) ∧
+    (CC.Null.U128x2.load = CC.Gen.NullSrc.U128x2.load) ∧
+    (CC.Null.U128x2.map = CC.Gen.NullSrc.U128x2.map) ∧
+    (CC.Null.U128x2.new = CC.Gen.NullSrc.U128x2.new) ∧
+    (CC.Null.U128x2.not = CC.Gen.NullSrc.U128x2.not) ∧
+    (CC.Null.U128x2.rotate_right = CC.Gen.NullSrc.U128x2.rotate_right) ∧
+    (CC.Null.U128x2.xor_store = CC.Gen.NullSrc.U128x2.xor_store) ∧
+    (CC.Null.U128x2.zipmap = CC.Gen.NullSrc.U128x2.zipmap) ∧
+    (CC.Null.U32x4.BITS = CC.Gen.NullSrc.U32x4.BITS) ∧
+    (CC.Null.U32x4.add = CC.Gen.NullSrc.U32x4.add) ∧
+    (CC.Null.U32x4.add_assign = CC.Gen.NullSrc.U32x4.add_assign) ∧
+    (CC.Null.U32x4.bitand = CC.Gen.NullSrc.U32x4.bitand) ∧
+    (CC.Null.U32x4.bitor = CC.Gen.NullSrc.U32x4.bitor) ∧
+    (CC.Null.U32x4.bitxor = CC.Gen.NullSrc.U32x4.bitxor) ∧
+    (CC.Null.U32x4.bitxor_assign = CC.Gen.NullSrc.U32x4.bitxor_assign) ∧
+    (CC.Null.U32x4.clone = CC.Gen.NullSrc.U32x4.clone) ∧
+    (CC.Null.U32x4.extract = CC.Gen.NullSrc.U32x4.extract) ∧
+    (CC.Null.U32x4.from_slice_unaligned = CC.Gen.NullSrc.U32x4.from_slice_unaligned) ∧
+    (CC.Null.U32x4.new = CC.Gen.NullSrc.U32x4.new) ∧
+    (CC.Null.U32x4.replace = CC.Gen.NullSrc.U32x4.replace) ∧
+    (CC.Null.U32x4.rotate_right = CC.Gen.NullSrc.U32x4.rotate_right) ∧
+    (CC.Null.U32x4.rotate_words_right = CC.Gen.NullSrc.U32x4.rotate_words_right) ∧
+    (CC.Null.U32x4.splat = CC.Gen.NullSrc.U32x4.splat) ∧
+    (CC.Null.U32x4.splat_rotate_right = CC.Gen.NullSrc.U32x4.splat_rotate_right) ∧
+    (CC.Null.U32x4.write_to_slice_unaligned = CC.Gen.NullSrc.U32x4.write_to_slice_unaligned) ∧
+    (CC.Null.U32x4.zipmap = CC.Gen.NullSrc.U32x4.zipmap) ∧
+    (CC.Null.U64x4.BITS = CC.Gen.NullSrc.U64x4.BITS) ∧
+    (CC.Null.U64x4.add = CC.Gen.NullSrc.U64x4.add) ∧
+    (CC.Null.U64x4.add_assign = CC.Gen.NullSrc.U64x4.add_assign) ∧
+    (CC.Null.U64x4.bitand = CC.Gen.NullSrc.U64x4.bitand) ∧
+    (CC.Null.U64x4.bitor = CC.Gen.NullSrc.U64x4.bitor) ∧
+    (CC.Null.U64x4.bitxor = CC.Gen.NullSrc.U64x4.bitxor) ∧
+    (CC.Null.U64x4.bitxor_assign = CC.Gen.NullSrc.U64x4.bitxor_assign) ∧
+    (CC.Null.U64x4.clone = CC.Gen.NullSrc.U64x4.clone) ∧
+    (CC.Null.U64x4.extract = CC.Gen.NullSrc.U64x4.extract) ∧
+    (CC.Null.U64x4.from_slice_unaligned = CC.Gen.NullSrc.U64x4.from_slice_unaligned) ∧
+    (CC.Null.U64x4.new = CC.Gen.NullSrc.U64x4.new) ∧
+    (CC.Null.U64x4.replace = CC.Gen.NullSrc.U64x4.replace) ∧
+    (CC.Null.U64x4.rotate_right = CC.Gen.NullSrc.U64x4.rotate_right) ∧
+    (CC.Null.U64x4.rotate_words_right = CC.Gen.NullSrc.U64x4.rotate_words_right) ∧
+    (CC.Null.U64x4.splat = CC.Gen.NullSrc.U64x4.splat) ∧
+    (CC.Null.U64x4.splat_rotate_right = CC.Gen.NullSrc.U64x4.splat_rotate_right) ∧
+    (CC.Null.U64x4.write_to_slice_unaligned = CC.Gen.NullSrc.U64x4.write_to_slice_unaligned) ∧
+    (CC.Null.U64x4.zipmap = CC.Gen.NullSrc.U64x4.zipmap) ∧
+    (CC.Null.U32x4x4.add = CC.Gen.NullSrc.U32x4x4.add) ∧
+    (CC.Null.U32x4x4.add_assign = CC.Gen.NullSrc.U32x4x4.add_assign) ∧
+    (CC.Null.U32x4x4.bitand = CC.Gen.NullSrc.U32x4x4.bitand) ∧
+    (CC.Null.U32x4x4.bitor = CC.Gen.NullSrc.U32x4x4.bitor) ∧
+    (CC.Null.U32x4x4.bitxor = CC.Gen.NullSrc.U32x4x4.bitxor) ∧
+    (CC.Null.U32x4x4.bitxor_assign = CC.Gen.NullSrc.U32x4x4.bitxor_assign) ∧
+    (CC.Null.U32x4x4.clone = CC.Gen.NullSrc.U32x4x4.clone) ∧
+    (CC.Null.U32x4x4.from_ = CC.Gen.NullSrc.U32x4x4.from_) ∧
+    (CC.Null.U32x4x4.into_parts = CC.Gen.NullSrc.U32x4x4.into_parts) ∧
+    (CC.Null.U32x4x4.rotate_words_right = CC.Gen.NullSrc.U32x4x4.rotate_words_right) ∧
+    (CC.Null.U32x4x4.splat = CC.Gen.NullSrc.U32x4x4.splat) ∧
+    (CC.Null.U32x4x4.splat_rotate_right = CC.Gen.NullSrc.U32x4x4.splat_rotate_right) ∧
+    (CC.Null.U32x4x4.zipmap = CC.Gen.NullSrc.U32x4x4.zipmap) :=
+  ⟨CC.Src.src_null_clean, CC.Src.src_null_items, CC.Src.src_null_structs, CC.Src.src_null_u128x1_add_assign,
+   CC.Src.src_null_u128x1_andnot, CC.Src.src_null_u128x1_bitand, CC.Src.src_null_u128x1_bitxor,
+   CC.Src.src_null_u128x1_bitxor_assign, CC.Src.src_null_u128x1_clone, CC.Src.src_null_u128x1_extract,
+   CC.Src.src_null_u128x1_into_inner, CC.Src.src_null_u128x1_load, CC.Src.src_null_u128x1_new,
+   CC.Src.src_null_u128x1_not, CC.Src.src_null_u128x1_rotate_right, CC.Src.src_null_u128x1_swap,
+   CC.Src.src_null_u128x1_swap1, CC.Src.src_null_u128x1_swap16, CC.Src.src_null_u128x1_swap2,
+   CC.Src.src_null_u128x1_swap32, CC.Src.src_null_u128x1_swap4, CC.Src.src_null_u128x1_swap64,
+   CC.Src.src_null_u128x1_swap8, CC.Src.src_null_u128x1_xor_store, CC.Src.src_null_u128x2_add_assign,
+   CC.Src.src_null_u128x2_andnot, CC.Src.src_null_u128x2_bitand, CC.Src.src_null_u128x2_bitor,
+   CC.Src.src_null_u128x2_bitxor_assign, CC.Src.src_null_u128x2_clone, CC.Src.src_null_u128x2_extract,
+   CC.Src.src_null_u128x2_load, CC.Src.src_null_u128x2_map, CC.Src.src_null_u128x2_new, CC.Src.src_null_u128x2_not,
+   CC.Src.src_null_u128x2_rotate_right, CC.Src.src_null_u128x2_xor_store, CC.Src.src_null_u128x2_zipmap,
+   CC.Src.src_null_u32x4_BITS, CC.Src.src_null_u32x4_add, CC.Src.src_null_u32x4_add_assign,
+   CC.Src.src_null_u32x4_bitand, CC.Src.src_null_u32x4_bitor, CC.Src.src_null_u32x4_bitxor,
+   CC.Src.src_null_u32x4_bitxor_assign, CC.Src.src_null_u32x4_clone, CC.Src.src_null_u32x4_extract,
+   CC.Src.src_null_u32x4_from_slice_unaligned, CC.Src.src_null_u32x4_new, CC.Src.src_null_u32x4_replace,
+   CC.Src.src_null_u32x4_rotate_right, CC.Src.src_null_u32x4_rotate_words_right, CC.Src.src_null_u32x4_splat,
+   CC.Src.src_null_u32x4_splat_rotate_right, CC.Src.src_null_u32x4_write_to_slice_unaligned,
+   CC.Src.src_null_u32x4_zipmap, CC.Src.src_null_u64x4_BITS, CC.Src.src_null_u64x4_add,
+   CC.Src.src_null_u64x4_add_assign, CC.Src.src_null_u64x4_bitand, CC.Src.src_null_u64x4_bitor,
+   CC.Src.src_null_u64x4_bitxor, CC.Src.src_null_u64x4_bitxor_assign, CC.Src.src_null_u64x4_clone,
+   CC.Src.src_null_u64x4_extract, CC.Src.src_null_u64x4_from_slice_unaligned, CC.Src.src_null_u64x4_new,
+   CC.Src.src_null_u64x4_replace, CC.Src.src_null_u64x4_rotate_right, CC.Src.src_null_u64x4_rotate_words_right,
+   CC.Src.src_null_u64x4_splat, CC.Src.src_null_u64x4_splat_rotate_right,
+   CC.Src.src_null_u64x4_write_to_slice_unaligned, CC.Src.src_null_u64x4_zipmap, CC.Src.src_null_u32x4x4_add,
+   CC.Src.src_null_u32x4x4_add_assign, CC.Src.src_null_u32x4x4_bitand, CC.Src.src_null_u32x4x4_bitor,
+   CC.Src.src_null_u32x4x4_bitxor, CC.Src.src_null_u32x4x4_bitxor_assign, CC.Src.src_null_u32x4x4_clone,
+   CC.Src.src_null_u32x4x4_from, CC.Src.src_null_u32x4x4_into_parts, CC.Src.src_null_u32x4x4_rotate_words_right,
+   CC.Src.src_null_u32x4x4_splat, CC.Src.src_null_u32x4x4_splat_rotate_right, CC.Src.src_null_u32x4x4_zipmap⟩
 
 /-! ## non-vacuity: the guards are satisfiable, and model and meaning agree on byte-counting operands
     (every byte distinct, so any lane / byte / group mix-up shows) -/
